@@ -485,8 +485,10 @@ func (se *symExec) execStmt(s ast.Stmt, st *sstate) (fall []*sstate, rets []path
 		for _, rexpr := range x.Results {
 			var next []acc
 			for _, a := range cur {
+				boolTestHere := len(x.Results) == 1 && se.isBoolTest(rexpr) &&
+					(se.tableMode || len(se.inStack) > 0 && isNewFunc(FuncID(se.inStack[len(se.inStack)-1])))
 				// a call returning a tuple
-				if call, ok := unparen(rexpr).(*ast.CallExpr); ok && len(x.Results) == 1 {
+				if call, ok := unparen(rexpr).(*ast.CallExpr); ok && len(x.Results) == 1 && !boolTestHere {
 					for _, r := range se.evalCallMulti(call, a.st) {
 						next = append(next, acc{r.st, r.rets})
 					}
@@ -791,6 +793,9 @@ func (se *symExec) isBoolTest(e ast.Expr) bool {
 	case *ast.UnaryExpr:
 		return x.Op == token.NOT
 	case *ast.CallExpr:
+		if ftv, ok := se.info.Types[x.Fun]; ok && ftv.IsType() {
+			return false // a conversion, bool(x), is not a test
+		}
 		return true
 	}
 	return false
